@@ -244,7 +244,7 @@ Proof.
   - destruct (Nat.eqb k j) eqn:E; simpl; rewrite E; [discriminate|]. intros H. now rewrite IH.
 Qed.
 
-(* what the pending restore actions would make of vars(scratch), top of the stack first *)
+(* what the pending restore actions would make of the namespaces of the patched objects, top of the stack first *)
 Definition undo1 (a : list (nat * nat)) (k : cleanup) : list (nat * nat) :=
   match k with
   | KRestore x (Some v) => aput x v a
@@ -400,7 +400,7 @@ Lemma exec_act_spec a s :
                  /\ entries_of new = match act_raise a with Some _ => [] | None => act_entries a end
                  /\ stack_size new <= act_size a.
 Proof.
-  destruct a as [n loc | loc v | mm | mm | t body | a v | fx | h | | c o | r p | e]; unfold exec_act.
+  destruct a as [n loc | loc v | mm | mm | t body | a v | fx | h | | c o | r p | pk | e]; unfold exec_act.
   - split; [reflexivity|]. exists []. split; [apply dstep_step, ds_user | split; [reflexivity | simpl; lia]].
   - split; [reflexivity|]. exists []. split; [apply dstep_step, ds_setcell | split; [reflexivity | simpl; lia]].
   - split; [reflexivity|]. exists []. split; [|split; [reflexivity | simpl; lia]].
@@ -426,6 +426,7 @@ Proof.
       * apply dstep_step. apply (dstep_trans _ _ _ _ _ (ds_reason (Some r) s) (ds_tb _)).
       * apply dstep_step, ds_reason.
     + split; [reflexivity|]. exists []. split; [apply dstep_step, ds_reason | split; [reflexivity | simpl; lia]].
+  - split; [reflexivity|]. exists []. split; [apply step_refl | split; [reflexivity | simpl; lia]].
   - split; [reflexivity|]. exists []. split; [apply step_refl | split; [reflexivity | simpl; lia]].
 Qed.
 
